@@ -313,6 +313,20 @@ def run(prog: Program, res: Result) -> None:  # noqa: PLR0912, PLR0915
     res.floor("C09.R4", "clock reads", n_clock, 3)
 
     # ------------------------------------------------------------------ R5 registries
+    res.rule("C09.R6", "the builtin hash() is called only inside __hash__ methods: a hash of names or values used as an identity key (stored on a node, used as a dict key) collides for distinct values and, for strings, differs from process to process (PYTHONHASHSEED)")
+    n_hash = 0
+    for mod in prog.modules.values():
+        for c in ast.walk(mod.tree):
+            if isinstance(c, ast.Call) and isinstance(c.func, ast.Name) and c.func.id == "hash":
+                n_hash += 1
+                fi = prog.enclosing_function(mod, c)
+                q = fi.qualname if fi else "<module>"
+                what = f"`{norm(c, 50)}` only implements __hash__"
+                if fi is not None and fi.name == "__hash__":
+                    res.ok("C09.R6", f"{mod.relpath}:{c.lineno} {q}", what, "inside __hash__ (dict/set lookups re-check with __eq__)")
+                else:
+                    res.fail("C09.R6", file=mod.relpath, line=c.lineno, qualname=q, construct=f"{norm(c, 50)} used as a key in {q}", message=f"{q} uses `{norm(c, 50)}` as an identity: two different values with the same hash share one entry (hash(-1) == hash(-2), hash(1) == hash(1.0)) and the value differs between processes, so the result of a render depends on more than its inputs", what=what)
+    res.floor("C09.R6", "hash() calls", n_hash, 10)
     res.rule("C09.R5", "Environment.__init__ creates its own filters/tags registries; registries are written only by registration functions on the environment being configured; stateful filter/tag objects are constructed inside the registration call")
     env = prog.cls("liquid2.environment.Environment")
     einit = env.methods.get("__init__")
